@@ -205,7 +205,7 @@ func c14SignerStrings(r *rand.Rand, keys []c14Key, tier string, addIdx func(file
 			n["error"]++
 		}
 		sp = append(sp, fmt.Sprintf("(%s, %s, %s, %s, %s)", coqN(uint64(alg)), hxs(s), tabStr(t.pub), tabStr(t.priv), obs))
-		addIdx(file+"#6", "signer-parse", map[string]any{"what": what, "alg": alg, "string_b64": base64.StdEncoding.EncodeToString([]byte(s)), "string": fmt.Sprintf("%.80q", s), "ok": err == nil})
+		addIdx(file+"#6", "signer-parse", map[string]any{"what": what, "alg": alg, "string_hex": hex.EncodeToString([]byte(s)), "string": fmt.Sprintf("%.80q", s), "ok": err == nil})
 	}
 	firstRSA := true
 	for i, k := range keys {
@@ -392,7 +392,7 @@ func c14WriteBase(r *rand.Rand, o genOpts, keys []c14Key, addIdx func(file, kind
 	for _, c := range c14Base {
 		exp := coqOptBytes(c.out, c.ok)
 		items = append(items, fmt.Sprintf("(%s, %s, %s)", coqN(uint64(c.which)), hx(c.in), exp))
-		rp := map[string]any{"what": c.what, "input_hex": hex.EncodeToString(c.in), "input": fmt.Sprintf("%.100q", c.in), "go_ok": c.ok, "go_result_hex": hex.EncodeToString(c.out),
+		rp := map[string]any{"what": c.what, "which": c.which, "input_hex": hex.EncodeToString(c.in), "input": fmt.Sprintf("%.100q", c.in), "go_ok": c.ok, "go_result_hex": hex.EncodeToString(c.out),
 			"coq": fmt.Sprintf("check_base (%s, %s, %s)", coqN(uint64(c.which)), hx(c.in), exp)}
 		addIdx(file+"#8", names[c.which], rp)
 		if counts[names[c.which]] == nil {
